@@ -8,6 +8,9 @@
 - the recursive-division generator is tied to the code by re-running the REAL `split_next_chamber` loop with the
   draws recorded (`random_odd` / `random_even` on the same keys) and replaying them in `mazegen_gen_io`; every
   generated maze additionally goes through the verified BFS connectivity checker `mazegen_connected_io`.
+  Connectivity, termination and absence of stack overflow are PROVED for all sizes and draws (Proofs/Maze_GenTotal.v);
+  the real loop is checked against the proved fuel (max(1, (w//2)*(h//2)) iterations) and stack-depth (2*depth <= w*h)
+  bounds, and the degenerate 1x1 grid is run through the real generator as well.
 """
 import numpy as np
 
@@ -92,9 +95,9 @@ def make_recorder(width, height, _cache={}):
             pd = jnp.where(horiz, mg.random_even(pk, h), mg.random_even(pk, w))
             new = mg.split_next_chamber(st)
             st2 = jax.tree_util.tree_map(lambda a, b: jnp.where(rem, a, b), new, st)
-            return st2, (rem, chamber, wd, pd)
-        stf, (rem, ch, wd, pd) = jax.lax.scan(body, st0, None, length=N)
-        return stf.maze, stf.chambers.insertion_index, rem, ch, wd, pd
+            return st2, (rem, chamber, wd, pd, st.chambers.insertion_index)
+        stf, (rem, ch, wd, pd, depth) = jax.lax.scan(body, st0, None, length=N)
+        return stf.maze, stf.chambers.insertion_index, rem, ch, wd, pd, depth
     f = jax.jit(jax.vmap(rec))
     g = jax.jit(jax.vmap(lambda k: mg.generate_maze(width, height, k)))
     _cache[(width, height)] = (f, g)
@@ -104,7 +107,7 @@ def make_recorder(width, height, _cache={}):
 def gen_calls(kit, calls, metas, rows, cols, keys, label, walls_expected=None):
     """record + replay the generator for a batch of maze keys (width = cols, height = rows)"""
     f, g = make_recorder(cols, rows)
-    mz, idx, rem, ch, wd, pd = (np.asarray(x) for x in f(keys))
+    mz, idx, rem, ch, wd, pd, depth = (np.asarray(x) for x in f(keys))
     # the reset walls (when given) are the reference output of the real generate_maze; otherwise call it
     real = np.asarray(mz) if walls_expected is not None else np.asarray(g(keys))
     for b in range(len(keys)):
@@ -117,10 +120,21 @@ def gen_calls(kit, calls, metas, rows, cols, keys, label, walls_expected=None):
             kit.fail(["C10"], "recorded generator loop does not reproduce generate_maze / the reset walls (tie broke)",
                      dict(cfg=label, op="gen-record"), dict(rows=rows, cols=cols, key=np.asarray(keys[b]).tolist(), seed=kit.seed))
             continue
+        # the proved bounds of Proofs/Maze_GenTotal.v on the REAL loop: at most gen_fuel = max(1, (width//2)*(height//2))
+        # iterations (the fuel of C10_MazeGen_terminates_tight / C10_MazeGen_connected) and 2 * (stack depth) <= capacity
+        # = width*height before every iteration (the invariant behind C10_MazeGen_stack_never_overflows; 1x1 is the
+        # documented degenerate case: depth 1, capacity 1, no push)
+        kit.res["C10"].evaluations += 1
+        dmax = int(depth[b, :n].max()) if n else 0
+        kit.res["C10"].count("gen-max-stack-depth", dmax)
+        if n > max(1, (cols // 2) * (rows // 2)) or (rows * cols >= 2 and 2 * dmax > rows * cols):
+            kit.fail(["C10"], "real generator loop exceeds the proved fuel / stack-depth bounds",
+                     dict(cfg=label, op="gen-bounds"), dict(rows=rows, cols=cols, key=np.asarray(keys[b]).tolist(), n=n, fuel=max(1, (cols // 2) * (rows // 2)), max_depth=dmax, seed=kit.seed))
         draws = []
         for i in range(n):
             draws += [int(wd[b, i]), int(pd[b, i])]
-        exp = [1, 0, 1, 1] + [int(x) for x in real[b].reshape(-1)] + [int(x) for x in ch[b, :n].reshape(-1)]
+        # flags: finished, leftover draws, draws valid, cap_ok (conservatively false on 1x1, see C10_MazeGen_1x1)
+        exp = [1, 0, 1, 0 if rows * cols == 1 else 1] + [int(x) for x in real[b].reshape(-1)] + [int(x) for x in ch[b, :n].reshape(-1)]
         calls.append(("mazegen_gen_io", [cols, rows, n] + draws))
         metas.append(("gen", None, exp, dict(cfg=label, rows=rows, cols=cols, b=b, key=np.asarray(keys[b]).tolist(), draws=draws, n=n)))
         kit.res["C10"].count("gen-iterations", n)
@@ -332,6 +346,8 @@ def analyze(kit):
             seen_walls.setdefault(lab, set()).add((w.tobytes(), i1, i2))
         mkeys = split3(keys)[:, 1]
         gen_calls(kit, calls, metas, rows, cols, mkeys, lab, walls_expected=[S.walls[b] for b in range(nk)])
+    # the degenerate 1x1 grid (generator only: the Maze RandomGenerator cannot place two distinct cells on it)
+    gen_calls(kit, calls, metas, 1, 1, jax.random.split(jax.random.PRNGKey(kit.seed * 131 + 18), 2), "gen-r1c1")
     # generators depend on the key
     for lab, ws in seen_walls.items():
         kit.res["C10"].evaluations += 1
